@@ -858,6 +858,9 @@ class Model:
             variables = []
             values = []
 
+            # Expressions of the variables eliminated so far, by name
+            eliminated = {}
+
             def get_derivative(expr):
                 if expr.is_constant():
                     return 0.0
@@ -870,6 +873,10 @@ class Model:
                         der_sym = ca.MX.sym("der({})".format(expr.name()))
                         der_states[expr.name()] = Variable(der_sym, float)
                         return der_sym
+                    elif expr.name() in eliminated:
+                        # Eliminated by an earlier equation: its derivative
+                        # is that of the expression it was replaced with.
+                        return get_derivative(eliminated[expr.name()])
                     else:
                         return 0.0
                 else:
@@ -902,6 +909,7 @@ class Model:
 
                     variables.append(variable)
                     values.append(value)
+                    eliminated[variable.name()] = value
 
                     # Skip this equation
                     continue
